@@ -362,7 +362,9 @@ func cachingHandler(router proxy.Router, logger *apexlog.Logger, conf *config.Co
 							r.Header.Set(clientRevalidateHeader, clientRevalidateValue)
 						}
 						alwaysInclude.Set(caching.HeaderRrrouterCacheStatus, "revalidated")
-						cachingFunc(w, r, nil, alwaysInclude, &rf, false)
+						// The origin has just vouched for the entry: serve it now even if its (unchanged)
+						// lifetime still says stale, instead of revalidating it again and again.
+						cachingFunc(w, r, nil, alwaysInclude, &rf, true)
 						return
 					}
 					if reqres.Response.StatusCode == 304 {
